@@ -652,7 +652,7 @@ pub fn run(tier: &str, seed: u64, replay: Option<String>) -> i32 {
             continue;
         }
         // one block of every eligible type at least; thorough: every block of the .ctehexml files
-        let ks: Vec<usize> = if thorough && f.kind == FileKind::Ctehexml {
+        let ks: Vec<usize> = if thorough && f.kind == FileKind::Ctehexml && !f.rel.starts_with("gen/") {
             (0..nblocks).collect()
         } else {
             let per = if thorough { 24 } else { 3 };
